@@ -481,6 +481,12 @@ func cmdCheck(args []string) int {
 
 	ev := buildEvidence(prop, tier, seed, spec, hs, results, validated, violations, time.Since(t0).Seconds(), eng, cf)
 	evPath := filepath.Join(verifDir(), "evidence", prop+".json")
+	if d := os.Getenv("VERIF_TRIAL_EVIDENCE"); d != "" {
+		// seed / mutant trials (never set by a registered command): keep the
+		// committed evidence of the unchanged tree untouched
+		os.MkdirAll(d, 0o755)
+		evPath = filepath.Join(d, prop+".json")
+	}
 	if len(broken) > 0 || len(mismatch) > 0 {
 		ev["coverage"].(map[string]interface{})["inconclusive"] = append(append([]string{}, broken...), mismatch...)
 	}
